@@ -286,6 +286,18 @@ def with_fine(pid, name, src, harness_flags=""):
                                 "with <= 1 (quick) / <= 2 (thorough, under a deadline) deviations")
 
 
+def with_boundary(pid, n):
+    """wake-ups of the primitive across the storage boundary of an 8-entry run queue (harness/cxx_boundary.c)"""
+    base = PROPERTIES[pid]["components"]
+    comp = e1("c%02db" % n, "harness/cxx_boundary.c", env={"EXTRA_LIB_DEFS": "-DMYTH_VERIF_QUEUE_SIZE=8"}, harness_flags="-DBND_PROP=%d" % n, require_pids=(4,), deadline=(100, 300))
+    PROPERTIES[pid]["components"] = lambda tier, base=base, comp=comp: base(tier) + [comp]
+    PROPERTIES[pid]["rule"] += ("; plus 7-20 wake-ups of one waiter by a waker that keeps its worker, on an 8-entry run queue, so that the woken thread is pushed at the "
+                                "end of the queue storage (re-centring) and has to be taken by the other worker")
+
+
+for _pid, _n in (("C04", 4), ("C05", 5), ("C06", 6), ("C08", 8), ("C09", 9)):
+    with_boundary(_pid, _n)
+
 with_fine("C01", "c01f", "harness/c01_forkjoin.c")
 with_fine("C04", "c04f", "harness/c04_mutex.c")
 with_fine("C05", "c05f", "harness/c05_cond.c")
